@@ -825,7 +825,8 @@ pub fn wire_wellformed(a: &Analysis, prop: &'static str) -> Vec<Violation> {
     for (c, conn) in a.conns.iter().enumerate() {
         if let Some((off, why)) = &conn.wire_error {
             let pkt = a.raw_wire[c].get(*off).map(|b| rc::Kind::from_nibble(b >> 4).map(|k| k.name()).unwrap_or("RESERVED")).unwrap_or("?");
-            let why_short: String = why.chars().take(60).collect();
+            // stable class: no lengths / offsets / values
+            let why_short: String = why.split(|c: char| c == ':' || c == '(').next().unwrap_or("").chars().filter(|c| !c.is_ascii_digit()).take(48).collect::<String>().trim().replace("  ", " ");
             out.push(v(prop, format!("{prop}/malformed/{pkt}/{why_short}"), format!("connection {c} offset {off}: {why}")));
         }
     }
@@ -1262,6 +1263,90 @@ pub fn c03(a: &Analysis, r: &Analysis) -> Vec<Violation> {
         let connect_closed = matches!(&conn.connect_returned, Some((_, ConnectOutcome::Err(e))) if e.variant == "SocketClosed");
         if (closed_result(&conn.run_returned) || connect_closed) && conn.read_end_seen.is_none() && conn.write_fault_seen.is_none() {
             out.push(v("C03", "C03/early-eof", format!("connection {c}: SocketClosed reported although the transport never ended")));
+        }
+    }
+    out
+}
+
+/// C12 — `a`: the run with Maximum Packet Size M; `twin`: the same scenario without a limit.
+pub fn c12(a: &Analysis, twin: &Analysis, probe_from: Option<usize>) -> Vec<Violation> {
+    let mut out = Vec::new();
+    let m: Option<usize> = a.inbound.iter().find_map(|i| match &i.p.pkt {
+        Some(Packet::Connack(c)) => c.props.u32(pid::MAXIMUM_PACKET_SIZE).map(|v| v as usize),
+        _ => None,
+    });
+    out.extend(wire_wellformed(a, "C12").into_iter().map(|mut x| {
+        x.class = "C12/partial-write".into();
+        x
+    }));
+    for (c, conn) in a.conns.iter().enumerate() {
+        if conn.partial_tail > 0 && !conn.write_blocked_at_end && conn.write_fault_seen.is_none() {
+            out.push(v("C12", "C12/partial-write", format!("connection {c}: {} byte(s) of an incomplete packet on the wire", conn.partial_tail)));
+        }
+    }
+    let ping_len = twin.wire.iter().find(|p| matches!(p.pkt, Packet::Pingreq)).map(|p| p.len).unwrap_or(2);
+    let disc_len = twin.wire.iter().find(|p| matches!(p.pkt, Packet::Disconnect(_))).map(|p| p.len);
+    for op in a.ops.values() {
+        if op.first_poll.is_none() {
+            continue;
+        }
+        let kind = op.spec.kind_name();
+        let l: Option<usize> = match &op.spec {
+            OpSpec::Ping => Some(ping_len),
+            OpSpec::Disconnect(_) => disc_len,
+            _ => twin.request_of(op.idx).first().map(|p| p.len),
+        };
+        let Some(l) = l else { continue };
+        let on_wire = match &op.spec {
+            OpSpec::Ping => None, // pings carry no marker; judged by count below
+            OpSpec::Disconnect(_) => Some(a.wire.iter().any(|p| matches!(p.pkt, Packet::Disconnect(_)))),
+            _ => Some(!a.request_of(op.idx).is_empty()),
+        };
+        let over = m.map(|m| l > m).unwrap_or(false);
+        if over {
+            if on_wire == Some(true) {
+                out.push(v("C12", format!("C12/written-over-limit/{kind}"), format!("op {}: packet of {l} bytes written although Maximum Packet Size is {}", op.idx, m.unwrap())));
+            }
+            match op.outcome() {
+                Some(o) if o.err_variant() == Some("MaximumPacketSizeExceeded") => {}
+                Some(o) if o.err_variant() == Some("ContextExited") => {}
+                Some(o) => out.push(v("C12", format!("C12/written-over-limit/{kind}/result"), format!("op {}: L={l} > M={} but the operation returned {:?}", op.idx, m.unwrap(), o))),
+                None => {
+                    if a.ctx_gone.is_none() && !a.run_returned() && op.cancelled.is_none() && a.fully_consumed() {
+                        out.push(v("C12", format!("C12/written-over-limit/{kind}/pending"), format!("op {}: L={l} > M={} but the operation is still pending", op.idx, m.unwrap())));
+                    }
+                }
+            }
+        } else {
+            if op.err() == Some("MaximumPacketSizeExceeded") {
+                out.push(v("C12", format!("C12/refused-within-limit/{kind}"), format!("op {}: packet of {l} bytes refused although Maximum Packet Size is {:?}", op.idx, m)));
+            } else if on_wire == Some(false) && !locally_refused(op) && a.ctx_gone.is_none() && !a.run_returned() && a.fully_consumed() && op.cancelled.is_none() && op.err() != Some("ContextExited") {
+                out.push(v("C12", format!("C12/refused-within-limit/{kind}/not-written"), format!("op {}: packet of {l} bytes fits but is not on the wire (outcome {:?})", op.idx, op.outcome())));
+            }
+        }
+    }
+    // pings: every ping that fits is written, none that does not
+    let pings = a.ops.values().filter(|o| matches!(o.spec, OpSpec::Ping) && o.first_poll.is_some()).count();
+    let written = a.pings_on_wire();
+    if m.map(|m| ping_len > m).unwrap_or(false) {
+        if written > 0 {
+            out.push(v("C12", "C12/written-over-limit/ping", format!("{written} PINGREQ written although Maximum Packet Size is {}", m.unwrap())));
+        }
+    } else if written < pings && a.ctx_gone.is_none() && !a.run_returned() && a.fully_consumed() && !a.ops.values().any(|o| matches!(o.spec, OpSpec::Ping) && o.cancelled.is_some()) {
+        out.push(v("C12", "C12/refused-within-limit/ping/not-written", format!("{pings} pings issued, {written} written")));
+    }
+    // nothing left behind: the quota probe still finds exactly the free slots
+    for mut x in c10(a, probe_from) {
+        if x.class.starts_with("C10/leak") || x.class.starts_with("C10/overflow") || x.class.starts_with("C10/exceeded") {
+            x.property = "C12";
+            x.class = format!("C12/side-effect/{}", x.class.trim_start_matches("C10/"));
+            out.push(x);
+        }
+    }
+    // no stray completion: an operation refused locally returned exactly once
+    for op in a.ops.values() {
+        if op.returned.len() > 1 {
+            out.push(v("C12", "C12/side-effect/double-completion", format!("op {} returned {} times", op.idx, op.returned.len())));
         }
     }
     out
